@@ -109,8 +109,8 @@ func (ch c19) server(cfg c19cfg) *hs.Env {
 				st.problems = append(st.problems, fmt.Sprintf("%s: value of middleware %d missing from the command context", where, j))
 			}
 		}
-		if wire.ClientParameters(ctx)["user"] != "lifecycle" {
-			st.problems = append(st.problems, where+": client parameters missing from the command context")
+		if cp := wire.ClientParameters(ctx); cp["user"] != "lifecycle" || cp["database"] != "db" || cp["options"] != "" || cp["application_name"] != "" || len(cp) != 4 {
+			st.problems = append(st.problems, fmt.Sprintf("%s: client parameters in the command context are %v, sent: options=\"\" user=lifecycle application_name=\"\" database=db", where, cp))
 		}
 		if sp := wire.ServerParameters(ctx); sp["application_name"] != "verif" || sp["server_encoding"] != "UTF8" {
 			st.problems = append(st.problems, where+": server parameters missing from the command context")
@@ -200,7 +200,7 @@ func (ch c19) runConn(c *core.Ctx, env *hs.Env, cfg c19cfg, ending string, rng *
 	}
 	env.L.DialConn(conn)
 	cl := hs.NewClient(conn)
-	cl.C.Send(pg.Startup([][2]string{{"user", "lifecycle"}}))
+	cl.C.Send(pg.Startup([][2]string{{"options", ""}, {"user", "lifecycle"}, {"application_name", ""}, {"database", "db"}}))
 	cl.C.Quiesce()
 	if cfg.Auth {
 		cl.C.Send(pg.Password("x"))
